@@ -1,0 +1,59 @@
+// Copyright 2021 TiKV Project Authors.
+//
+// Licensed under the Apache License, Version 2.0 (the "License");
+// you may not use this file except in compliance with the License.
+// You may obtain a copy of the License at
+//
+//     http://www.apache.org/licenses/LICENSE-2.0
+//
+// Unless required by applicable law or agreed to in writing, software
+// distributed under the License is distributed on an "AS IS" BASIS,
+// See the License for the specific language governing permissions and
+// limitations under the License.
+
+//go:build verif
+// +build verif
+
+package pd
+
+import (
+	"context"
+	"fmt"
+
+	"github.com/pingcap/kvproto/pkg/pdpb"
+)
+
+// VerifTSOClient drives the client half of the TSO protocol (processTSORequests:
+// one stream round trip for a batch, the per-request timestamps and the
+// fallback detection) without any connection.
+type VerifTSOClient struct{ c *client }
+
+// VerifNewTSOClient creates the client state processTSORequests needs.
+func VerifNewTSOClient() *VerifTSOClient {
+	return &VerifTSOClient{c: &client{baseClient: &baseClient{}}}
+}
+
+// Process sends one batch of n requests over stream and returns the (physical,
+// logical) handed to each request; a fallback panic of the client is returned as an error.
+func (v *VerifTSOClient) Process(stream pdpb.PD_TsoClient, dcLocation string, n int) (phys, logical []int64, err error) {
+	defer func() {
+		if e := recover(); e != nil {
+			err = fmt.Errorf("panic: %v", e)
+		}
+	}()
+	reqs := make([]*tsoRequest, n)
+	for i := range reqs {
+		reqs[i] = &tsoRequest{done: make(chan error, 1), dcLocation: dcLocation, requestCtx: context.Background(), clientCtx: context.Background()}
+	}
+	if err = v.c.processTSORequests(stream, dcLocation, reqs, nil); err != nil {
+		return nil, nil, err
+	}
+	for _, r := range reqs {
+		if e := <-r.done; e != nil {
+			return nil, nil, e
+		}
+		phys = append(phys, r.physical)
+		logical = append(logical, r.logical)
+	}
+	return phys, logical, nil
+}
